@@ -639,6 +639,9 @@ func ruleV1(c *Ctx) *RuleResult {
 	}
 	for _, sp := range specs {
 		fn := c.Method(sp.pkg, sp.typ, sp.method)
+		if fn == nil && sp.method == "unmarshal" {
+			fn = c.codecFuncOf(sp.typ, "unmarshal")
+		}
 		fld := c.Field(sp.pkg, sp.typ, sp.field)
 		key := sp.typ + "." + sp.method + "|" + sp.field
 		if fn == nil || fld == nil {
@@ -738,7 +741,7 @@ func ruleV1(c *Ctx) *RuleResult {
 		v1Check(c, r, fn, key, what, conds)
 	}
 	// preload hint TYPE flag and variant URI line: local conditions
-	if fn := c.Method("pkg/playlist", "MediaPreloadHint", "unmarshal"); fn != nil {
+	if fn := c.codecFuncOf("MediaPreloadHint", "unmarshal"); fn != nil {
 		conds := ifsOn(fn, func(v ssa.Value) bool {
 			p, ok := v.(*ssa.Phi)
 			if !ok {
@@ -772,7 +775,7 @@ func ruleV1(c *Ctx) *RuleResult {
 			r.fail(key, c.Pos(fn.Pos()), FuncName(fn), "a preload hint is accepted only if TYPE=PART was seen", "a success return is reachable without the TYPE flag being set")
 		}
 	}
-	if fn := c.Method("pkg/playlist", "MultivariantVariant", "unmarshal"); fn != nil {
+	if fn := c.codecFuncOf("MultivariantVariant", "unmarshal"); fn != nil {
 		// the URI line is non-empty and does not start with '#': `len(lines[1]) == 0 || lines[1][0] == '#'` → error
 		var uriStore *ssa.Store
 		uriF := c.Field("pkg/playlist", "MultivariantVariant", "URI")
@@ -838,7 +841,8 @@ func ruleV1(c *Ctx) *RuleResult {
 			validators := map[*ssa.Function]bool{}
 			all, _ := c.playlistFuncs()
 			for _, g := range all {
-				if g.Signature.Recv() == nil || !typeIs(g.Signature.Recv().Type(), modPath+"/pkg/playlist", "MediaSegment") {
+				// a validator of segments: a method, or a function whose first parameter is the segment
+				if len(g.Params) == 0 || !typeIs(g.Params[0].Type(), modPath+"/pkg/playlist", "MediaSegment") {
 					continue
 				}
 				conds := ifsOn(g, zeroTest)
